@@ -60,7 +60,7 @@ impl Engine for NatEngine {
         if idx % 10 == 9 {
             return vec![format!("nat register {}", rng.pick(&["__x", "__sort", "_ok", "fine", "__"]))];
         }
-        let (name, n): (&str, usize) = *rng.pick(&[("log", 1), ("sum2", 2), ("three", 3), ("four", 4), ("strlen", 1), ("fail", 0), ("mktable", 1), ("callback", 2), ("callback", 2), ("papply", 1)]);
+        let (name, n): (&str, usize) = *rng.pick(&[("log", 1), ("sum2", 2), ("three", 3), ("four", 4), ("strlen", 1), ("fail", 0), ("mktable", 1), ("callback", 2), ("callback", 2), ("papply", 1), ("nosuchnative", 1), ("typed3", 3), ("typed3", 3)]);
         let mut cards_args = vec![];
         let mut toks = vec![];
         for _ in 0..n {
@@ -69,6 +69,25 @@ impl Engine for NatEngine {
             toks.push(t);
         }
         let mut extra = vec![];
+        if name == "typed3" {
+            // (string, int, string): at most one argument of the wrong kind, at any position
+            let good: [(Card, String); 3] = [
+                (c(CardBody::StringLiteral("ab".into())), "s6162".into()),
+                (c(CardBody::ScalarInt(7)), "i7".into()),
+                (c(CardBody::StringLiteral("z".into())), "s7a".into()),
+            ];
+            for (i, (cd, t)) in good.into_iter().enumerate() {
+                cards_args[i] = cd;
+                toks[i] = t;
+            }
+            match rng.below(5) {
+                0 => { cards_args[0] = c(CardBody::ScalarInt(3)); toks[0] = "i3".into(); }
+                1 => { cards_args[2] = c(CardBody::CreateTable); toks[2] = "t[]".into(); }
+                2 => { cards_args[0] = c(CardBody::ScalarNil); toks[0] = "n".into(); }
+                3 => { cards_args[2] = c(CardBody::ScalarFloat(0.5)); toks[2] = "r3fe0000000000000".into(); }
+                _ => {}
+            }
+        }
         if name == "callback" {
             // callback(f, x): f is a script function / closure / native value
             let (f, ftok): (Card, String) = match rng.below(6) {
@@ -144,7 +163,16 @@ impl Engine for NatEngine {
                             let mut vm = new_vm(409600, 256, 256);
                             vm.max_instr = 5000;
                             let res = vm.run(&prog);
-                            show_outcome(&vm, &prog, &res)
+                            // the parameter number a conversion error names
+                            fn argno(e: &ExecutionErrorPayload) -> Option<String> {
+                                match e {
+                                    ExecutionErrorPayload::TaskFailure { error, .. } => argno(error),
+                                    ExecutionErrorPayload::InvalidArgument { context: Some(c) } => c.split("input #").nth(1).and_then(|x| x.split(':').next()).map(|x| x.to_string()),
+                                    _ => None,
+                                }
+                            }
+                            let no = res.as_ref().err().and_then(|e| argno(&e.payload)).map(|n| format!(" argno={n}")).unwrap_or_default();
+                            format!("{}{no}", show_outcome(&vm, &prog, &res))
                         }
                     },
                 },
@@ -224,6 +252,14 @@ impl Engine for NatEngine {
                     "closurefails" => r.starts_with("err:TaskFailure(callback):TaskFailure(strlen):InvalidArgument") && !after_set,
                     _ => r.starts_with("ok") && log == format!("log {}|callback -> n", args[1]),
                 },
+                "nosuchnative" => r.starts_with("err:ProcedureNotFound") && !after_set,
+                "typed3" => {
+                    let bad = if !args[0].starts_with('s') { Some(1) } else if !args[2].starts_with('s') { Some(3) } else { None };
+                    match bad {
+                        None => r.starts_with("ok") && log == "typed3 ab 7 z" && result == "i7",
+                        Some(k) => r.starts_with("err:TaskFailure(typed3):InvalidArgument") && r.ends_with(&format!(" argno={k}")) && !after_set,
+                    }
+                }
                 "papply" => match args[0] {
                     "zero" => r.starts_with("ok") && log == "papply -> i5" && result == "i5",
                     "closure78" => r.starts_with("ok") && log == "papply -> i78" && result == "i78" && r.contains("seen=i1"),
@@ -237,6 +273,15 @@ impl Engine for NatEngine {
             out.push(if ok && balanced { r.clone() } else { format!("host function {name} did not observe args {:?} / result / error as specified", args) });
         }
         Some(out)
+    }
+
+    /// the model's InvalidArgument carries no parameter number: ` argno=N` is checked by the oracle only
+    fn model_equiv(&self, _op: &str, impl_line: &str, model_line: &str) -> bool {
+        let stripped = match impl_line.rfind(" argno=") {
+            Some(p) => &impl_line[..p],
+            None => impl_line,
+        };
+        stripped == model_line
     }
 
     fn tags(&self, ops: &[String], impl_out: &[String]) -> Vec<String> {
